@@ -299,3 +299,61 @@ Fixpoint iv_xrun (s : vec * vec) (ops : list iv_xop) : list (res (list Z * list 
       | OutOfFuel => [OutOfFuel]
       end
   end.
+
+(** * closed forms for long runs of appends (used by the extracted model in the correspondence run)
+    The extracted model stores sizes and indices as unary numbers and recomputes the capacity as the length of the
+    storage list at every call, so n appends cost about n * Capacity list steps: filling a vector of capacity 65536
+    element by element takes the extracted code the better part of an hour.  `fill_fast k v x` is the state after k
+    appends of x to a vector with room for them, written down directly; ProofsFast.v proves that the step functions
+    below, which use it for  insert(end(), n, x)  and for a run of try_push_back calls, return EXACTLY what xstep and
+    iv_xstep return on every state satisfying the invariant (C01_fast_model_equal), so that running them instead
+    changes nothing but the running time. *)
+Definition fill_fast (k : nat) (v : vec) (x : Z) : vec :=
+  {| buf := firstn (szn v) (buf v) ++ repeat x k ++ skipn (szn v + k) (buf v); sz := sz v + Z.of_nat k |}.
+
+Section Fast.
+Variable pred_of : Z -> Z -> bool.
+
+Definition xstep_fast (s : vec * vec) (o : xop) : res ((vec * vec) * list Z) :=
+  match o with
+  | Base (InsertN t pos n x) =>
+      let v := sel t s in
+      if (pos =? sz v) && (0 <=? n) && (n <=? cap v - sz v)
+      then Ok (upd t s (fill_fast (Z.to_nat n) v x), [pos])
+      else xstep pred_of s o
+  | _ => xstep pred_of s o
+  end.
+
+Fixpoint xrun_fast (s : vec * vec) (ops : list xop) : list (res (list Z * list Z)) :=
+  match ops with
+  | [] => []
+  | o :: rest =>
+      match xstep_fast s o with
+      | Ok (s', out) => Ok (out, observe s') :: xrun_fast s' rest
+      | Contract => [Contract]
+      | UB k => [UB k]
+      | OutOfFuel => [OutOfFuel]
+      end
+  end.
+End Fast.
+
+Definition iv_xstep_fast (s : vec * vec) (o : iv_xop) : res ((vec * vec) * list Z) :=
+  match o with
+  | IvFill t n x =>
+      let v := sel t s in
+      let m := Z.min (Z.max n 0) (cap v - sz v) in
+      Ok (upd t s (fill_fast (Z.to_nat m) v x), [m])
+  | _ => iv_xstep s o
+  end.
+
+Fixpoint iv_xrun_fast (s : vec * vec) (ops : list iv_xop) : list (res (list Z * list Z)) :=
+  match ops with
+  | [] => []
+  | o :: rest =>
+      match iv_xstep_fast s o with
+      | Ok (s', out) => Ok (out, observe s') :: iv_xrun_fast s' rest
+      | Contract => [Contract]
+      | UB k => [UB k]
+      | OutOfFuel => [OutOfFuel]
+      end
+  end.
